@@ -99,8 +99,11 @@ func pick(rng *rand.Rand, n int) int {
 // genKey picks a key: mostly ordinary, biased towards existing ones half of the time.
 func genKey(rng *rand.Rand, cfg GenCfg, pi pathInfo) int {
 	if cfg.ErrKeys && rng.Intn(40) == 0 {
-		if rng.Intn(2) == 0 {
+		switch rng.Intn(3) {
+		case 0:
 			return EmptyKey
+		case 1:
+			return MaxKey // exactly MaxKeySize bytes: legal
 		}
 		return BigKey
 	}
@@ -148,7 +151,7 @@ func (s *Session) RandomOp(rng *rand.Rand, cfg GenCfg, h int, writable bool) (St
 		if len(pi.path) >= cfg.MaxDepth {
 			st.Op = "Lookup"
 		}
-		if st.K >= BigKey {
+		if st.K >= MaxKey {
 			st.K = 1 + rng.Intn(cfg.Keys) // oversized bucket names: accepted by the code, not part of C04's list
 		}
 	case "Put":
@@ -166,7 +169,7 @@ func (s *Session) RandomOp(rng *rand.Rand, cfg GenCfg, h int, writable bool) (St
 		if len(bs) > 0 && rng.Intn(4) > 0 {
 			st.K = bs[rng.Intn(len(bs))]
 		}
-		if st.K == EmptyKey || st.K >= BigKey {
+		if st.K == EmptyKey || st.K >= MaxKey {
 			st.K = 1 + rng.Intn(cfg.Keys)
 		}
 		if st.Op == "MoveBucket" {
